@@ -612,12 +612,24 @@ Definition write_target (fx : facts) (t : target) (newv : val) : res facts :=
       end
   end.
 
+(* WorkingMemory.ResetElement: besides the readers of the assigned element, the readers of every element variable of the
+   same container whose selector may denote the same element - any pair of selectors except two different literals *)
+Definition lit_sel (sel : expr) : bool := match sel with EAtom (AConst _) => true | _ => false end.
+Definition may_alias (x v : var) : bool :=
+  match x, v with
+  | VSel c s, VSel c' s' => var_eqb c' c && negb (var_eqb v x) && negb (lit_sel s && lit_sel s')
+  | _, _ => false
+  end.
+Definition reset_set (x : var) : list var := x :: filter (may_alias x) allvars.
+Definition reset_variables (s : estate) (xs : list var) : estate := fold_left reset_variable xs s.
+Definition reset_assigned (s : estate) (x : var) : estate := reset_variables s (reset_set x).
+
 (* Variable.Assign: resolve, store, then forget what depends on the variable *)
 Definition assign_var (x : var) (newv : val) (s : estate) : res unit * estate :=
   match assign_target x s with
   | (Ok t, s1) =>
       match write_target (es_facts s1) t newv with
-      | Ok fx' => (Ok tt, reset_variable (with_facts s1 fx') x)
+      | Ok fx' => (Ok tt, reset_assigned (with_facts s1 fx') x)
       | Err => (Err, s1)
       | Panic => (Panic, s1)
       end
